@@ -46,7 +46,7 @@ PROPERTY = "C16"
 LEVEL = "exploration"
 ENGINE = "direct"
 TECHNIQUE = "differential against two strict X.509 verifiers (cryptography, OpenSSL X509_STRICT) + construction-time identity sets"
-BUDGET = {"quick": (1200, 18), "thorough": (60_000, 200)}
+BUDGET = {"quick": (900, 18), "thorough": (60_000, 200)}
 WORKERS = {"quick": 2, "thorough": 16}
 REQUIRED = ["issued_by_ca", "valid_now", "server_auth", "strict_verify_cryptography", "strict_verify_openssl", "names_subset", "handshake_verified"]
 RULE = (
